@@ -18,7 +18,9 @@ const ModulePath = "github.com/BlackVectorOps/semantic_firewall/v3"
 
 // World holds the loaded program, the contracts and the global SMT declarations.
 type World struct {
-	effects map[*ssa.Function]*Effects // inferred write sets (effects.go)
+	effects  map[*ssa.Function]*Effects // inferred write sets (effects.go)
+	VerifDir string
+	recNames map[string][]string // recorded declaration names per function (names.go)
 	Repo      string
 	Prog      *ssa.Program
 	Pkgs      []*packages.Package
@@ -46,7 +48,7 @@ func LoadWorld(repo string, patterns []string, verifDir string) (*World, error) 
 	if err != nil {
 		return nil, err
 	}
-	w := &World{Repo: repo, Pkgs: pkgs, SSAPkgs: map[string]*ssa.Package{}, Sorts: NewSorts(), Contracts: NewContractSet(),
+	w := &World{VerifDir: verifDir, Repo: repo, Pkgs: pkgs, SSAPkgs: map[string]*ssa.Package{}, Sorts: NewSorts(), Contracts: NewContractSet(),
 		ufs: map[string]string{}, typeIDs: map[string]int{}, globals: map[*ssa.Global]int{}, funcIDs: map[*ssa.Function]int{},
 		funcsByKey: map[string]*ssa.Function{}, pure: map[string]bool{}, noHeap: map[string]bool{}, pureResultSort: map[string]string{}, pureResultType: map[string]types.Type{}}
 	for _, p := range pkgs {
